@@ -133,3 +133,39 @@ theorem einsum_adj {cj : K → K} (hc : IsConj cj) (hc1 : cj 1 = 1) (letters : L
 
 end einsum
 end NiftyVerif
+
+namespace NiftyVerif
+open Coo LinOps
+
+section einsumwf
+variable {K : Type} [CommRing K]
+
+/-- the flat index of a letter list under an assignment is inside the corresponding shape -/
+theorem einsum_flat_lt (letters : List Char) (sz : Char → Nat) (a : List Nat)
+    (ha : inShape (letters.map sz) a = true) (ls : List Char) (hls : ∀ c ∈ ls, c ∈ letters) :
+    ravel (ls.map sz) (ls.map fun c => a.getD (letters.idxOf c) 0) < prodL (ls.map sz) := by
+  apply ravel_lt
+  rw [inShape_iff] at ha ⊢
+  obtain ⟨hl, hr⟩ := ha
+  refine ⟨by simp, ?_⟩
+  intro i hi
+  have hi' : i < ls.length := by simpa using hi
+  rw [getD_map_lt ls _ i 0 'a' hi', getD_map_lt ls sz i 0 'a' hi']
+  have hc : ls.getD i 'a' ∈ letters := hls _ (by rw [List.getD_eq_getElem _ _ hi']; exact List.getElem_mem hi')
+  generalize ls.getD i 'a' = c at hc ⊢
+  have hidx : letters.idxOf c < letters.length := List.idxOf_lt_length_of_mem hc
+  have := hr (letters.idxOf c) (by rw [List.length_map]; exact hidx)
+  rw [getD_map_lt letters sz _ 0 'a' hidx, List.getD_eq_getElem _ _ hidx, List.getElem_idxOf hidx] at this
+  exact this
+
+/-- LinearEinsum's model is well-formed whenever the input and output letters occur among `letters` -/
+theorem einsum_wf (letters : List Char) (sz : Char → Nat) (ops : List (List Char × List K)) (xs os : List Char)
+    (hxs : ∀ c ∈ xs, c ∈ letters) (hos : ∀ c ∈ os, c ∈ letters) : (einsum letters sz ops xs os).wf = true := by
+  rw [wf_iff]; intro e he
+  simp only [einsum, List.mem_map, List.mem_range] at he
+  obtain ⟨t, ht, rfl⟩ := he
+  have ha := unravel_inShape (letters.map sz) t ht
+  exact ⟨einsum_flat_lt letters sz _ ha os hos, einsum_flat_lt letters sz _ ha xs hxs⟩
+
+end einsumwf
+end NiftyVerif
